@@ -284,10 +284,23 @@ impl Ctx {
                     o.insert("len".into(), json!(b.len()));
                     o.insert("h30".into(), json!(decode::placement_hash(b) & ((1 << 30) - 1)));
                     if b.len() <= 40 { o.insert("bytes".into(), json!(b)); }
-                    if let Some(x) = int { o.insert("x4".into(), json!([x & 0xffff, (x >> 16) & 0xffff, (x >> 32) & 0xffff, (x >> 48) & 0xffff])); }
+                    if let Some(x) = int {
+                        o.insert("x4".into(), json!([x & 0xffff, (x >> 16) & 0xffff, (x >> 32) & 0xffff, (x >> 48) & 0xffff]));
+                        if let Some(enc) = self.tables.keys.encs.get(id) { o.insert("enc".into(), json!(enc)); }
+                    }
                     Value::Object(o)
                 }).collect();
-                let vals: Vec<Value> = self.tables.vals.ents[v0..].iter().map(|(id, b, _)| json!({"id": id, "len": b.len()})).collect();
+                let mut vals: Vec<Value> = self.tables.vals.ents[v0..].iter().map(|(id, b, _)| json!({"id": id, "len": b.len()})).collect();
+                // declared lossy-decoding images (C14 string variants): lossy_of passes through
+                if let Some(vs) = op.get("vals").and_then(|v| v.as_array()) {
+                    for v in vs {
+                        if let Some(of) = v.get("lossy_of") {
+                            for x in vals.iter_mut() {
+                                if x["id"] == v["id"] { x["lossy_of"] = of.clone(); }
+                            }
+                        }
+                    }
+                }
                 ev.insert("keys".into(), Value::Array(keys));
                 ev.insert("vals".into(), Value::Array(vals));
                 ev.insert("outcome".into(), json!("ok"));
@@ -618,9 +631,10 @@ impl Ctx {
                 ev.insert("name".into(), json!(nm));
                 ev.insert("kt".into(), json!(kt));
                 let params = serde_json::to_string(&op["params"]).unwrap();
+                let ks = serde_json::to_string(op.get("ks").unwrap_or(&Value::Null)).unwrap();
                 let exe = std::env::current_exe().map_err(|e| format!("{e}"))?;
                 let out = crate::parent::run_with_timeout(
-                    std::process::Command::new(exe).args(["dumpdir", self.root.to_str().unwrap(), &self.script_path, &d, &nm, &kt, &params]),
+                    std::process::Command::new(exe).args(["dumpdir", self.root.to_str().unwrap(), &self.script_path, &d, &nm, &kt, &params, &ks]),
                     op.get("timeout").and_then(|t| t.as_u64()).unwrap_or(30),
                 );
                 match out {
@@ -702,9 +716,12 @@ impl Ctx {
                     "string" => { let a = DbString::from(x); let b = DbString::from(&x); (a.as_bytes().to_vec(), b.as_bytes().to_vec(), x) }
                     _ => return Err("conv kt".into()),
                 };
+                let limbs = |x: u64| json!([x & 0xffff, (x >> 16) & 0xffff, (x >> 32) & 0xffff, (x >> 48) & 0xffff]);
                 ev.insert("byv".into(), json!(byv));
                 ev.insert("byr".into(), json!(byr));
                 ev.insert("back".into(), json!(format!("{back}")));
+                ev.insert("x4".into(), limbs(x));
+                ev.insert("back4".into(), limbs(back));
                 ev.insert("outcome".into(), json!("ok"));
             }
             "hash" => {
@@ -729,7 +746,7 @@ impl Ctx {
 }
 
 /// child mode `dumpdir`: open <root>/<dir>/<name> as <kt> and print one JSON line
-pub fn dumpdir(root: &str, script: &str, d: &str, nm: &str, kt: &str, params: &str) {
+pub fn dumpdir(root: &str, script: &str, d: &str, nm: &str, kt: &str, params: &str, ks: &str) {
     std::panic::set_hook(Box::new(|_| {}));
     let mut ctx = Ctx::new(PathBuf::from(root), script);
     let text = std::fs::read_to_string(script).expect("script");
@@ -756,7 +773,9 @@ pub fn dumpdir(root: &str, script: &str, d: &str, nm: &str, kt: &str, params: &s
         }
     }
     out.insert("open".into(), json!("ok"));
-    let dump = ctx.exec(2, &json!({"op": "dump", "h": 0})).expect("dump");
+    let ks: Value = serde_json::from_str(ks).unwrap_or(Value::Null);
+    let dump_op = if ks.is_array() { json!({"op": "dump", "h": 0, "ks": ks}) } else { json!({"op": "dump", "h": 0}) };
+    let dump = ctx.exec(2, &dump_op).expect("dump");
     out.insert("dump_outcome".into(), dump["outcome"].clone());
     out.insert("content".into(), dump.get("content").cloned().unwrap_or(json!([])));
     out.insert("len".into(), dump.get("len").cloned().unwrap_or(json!(-1)));
